@@ -129,6 +129,13 @@ def run(tier):
     for rep in range(1 if tier == "quick" else 8):
         for kind in netgen.UNSUPPORTED_KINDS:
             jobs.append({"family": "unsupported:" + kind, "seed": "c11k-%d-%d" % (vlib.seed(), rep), "args": compiles.config_args(rk), "capture": False})
+    # a CPU-resident producer that has an NPU block type, followed by each kind of NPU-supported successor
+    for rep in range(1 if tier == "quick" else 4):
+        for kind in ("pool_stride4", "dw_stride4", "big_stride", "dilation"):
+            for fol in ("logistic", "tanh", "lrelu", "relu", "conv", "add_self"):
+                acc = ["ethos-u55-128", "ethos-u65-256", "ethos-u55-64"][(len(jobs) + rep) % 3]
+                jobs.append({"family": "unsupported:%s+%s" % (kind, fol), "seed": "c11f-%d-%d" % (vlib.seed(), rep),
+                             "args": ["--accelerator-config", acc], "capture": False})
     results = compiles.run_all(jobs, timeout=900)
     cases, meta, skipped = [], [], collections.Counter()
     reparse_fail = []
